@@ -123,7 +123,7 @@ func init() {
 	ip("(*runtime.Thread).end:string", 2, "end runs on the coroutine's own goroutine whose caller is waiting in getResumeValues")
 	ip("(*runtime.Thread).getResumeValues:interface{}", 1, "forwards to the resumer a value recovered by Thread.Start's handler (ContextTerminationError / threadClose); anything else was already escaping on the coroutine's goroutine")
 	// --- accounting
-	ip("(*runtime.runtimeContextManager).ReleaseMem:string", 1, "'Too much mem released': reachable only if a release is not matched by an earlier require; R-RELEASE (C06) checks the balance on every path of every releasing function")
+	ip("(*runtime.runtimeContextManager).ReleaseMem:string", 1, "'Too much mem released': reachable only in the root context (R-RELEASE (4)) and only if a release is not matched by an earlier require; R-RELEASE (C06) checks the balance on every path of every releasing function")
 	// --- host-side misuse
 	ip("(*runtime.GoFunction).SolemnlyDeclareCompliance:string", 1, "'Invalid safety flags': host programming error at registration time; flags are constants (R-REGTABLE)")
 }
